@@ -137,3 +137,523 @@ pub fn gen_trg(run: &mut Runner, seed: u64, n: u64) {
         emit(run, "trg", kind, b);
     }
 }
+
+fn rand_wave<R: Rng>(rng: &mut R, n: usize) -> Vec<i16> {
+    let style = rng.gen_range(0..6);
+    let center: i16 = *[0i16, -1, 1, 3000, -32768, 32767, -16000].choose(rng).unwrap();
+    (0..n)
+        .map(|i| match style {
+            0 => rng.gen::<i16>(),
+            1 => center.saturating_add(rng.gen_range(-3..=3)),
+            2 => {
+                if rng.gen_bool(0.5) {
+                    i16::MIN
+                } else {
+                    i16::MAX
+                }
+            }
+            3 => center,
+            4 => (i as i16).wrapping_mul(97).wrapping_add(center),
+            _ => {
+                if i < 64 {
+                    // sums that sit near a multiple of 64
+                    if i == 0 {
+                        rng.gen_range(-2..=2)
+                    } else {
+                        center.saturating_add((i % 2) as i16)
+                    }
+                } else {
+                    rng.gen()
+                }
+            }
+        })
+        .collect()
+}
+
+pub fn gen_adc(run: &mut Runner, seed: u64, n: u64) {
+    let mut rng = rng_from(seed, 2);
+    // all short lengths with random content and as truncations of a valid packet
+    for len in 0..=80usize {
+        let b: Vec<u8> = (0..len).map(|_| rng.gen()).collect();
+        emit(run, "adc", format!("randlen{len}"), b);
+        let mac = A16_MACS[rng.gen_range(0..8)].1;
+        let mut v = AdcFields::plain(mac, 128 + rng.gen_range(0..32), rand_wave(&mut rng, 64)).pack();
+        v.truncate(len);
+        emit(run, "adc", format!("trunclen{len}"), v);
+    }
+    // the 16-byte form with every flag combination and a few keep_last values
+    for supp in [false, true] {
+        for kb in [false, true] {
+            for kl in [0u16, 1, 34, 4095] {
+                for req in [0u16, 1, 2, 700, 65535] {
+                    let mut f = AdcFields::empty16(128 + rng.gen_range(0..32));
+                    f.supp = supp;
+                    f.keep_bit = kb;
+                    f.keep_last = kl;
+                    f.req = req;
+                    f.base = rng.gen();
+                    f.ts = rng.gen();
+                    emit(run, "adc", "short".into(), f.pack());
+                }
+            }
+        }
+    }
+    for k in 0..n {
+        let ns: usize = match rng.gen_range(0..20) {
+            0 => rng.gen_range(0..64),
+            1..=8 => rng.gen_range(64..=72),
+            9..=17 => rng.gen_range(64..=700),
+            18 => rng.gen_range(700..=4000),
+            _ => {
+                if k % 50 == 0 {
+                    rng.gen_range(30000..=32749)
+                } else {
+                    rng.gen_range(64..=700)
+                }
+            }
+        };
+        let mac = A16_MACS[rng.gen_range(0..8)].1;
+        let chan = if rng.gen_bool(0.8) {
+            128 + rng.gen_range(0..32)
+        } else {
+            rng.gen_range(0..16)
+        };
+        let mut f = AdcFields::plain(mac, chan, rand_wave(&mut rng, ns));
+        f.trig = rng.gen();
+        f.module = rng.gen_range(0..8);
+        f.ts = rng.gen();
+        f.offset = rng.gen();
+        f.build = rng.gen();
+        f.supp = rng.gen_bool(0.5);
+        f.keep_bit = if f.supp { rng.gen_bool(0.9) } else { rng.gen_bool(0.4) };
+        let kl_fit = ((ns + 3) / 2) as u16; // largest keep_last with last_index < ns (approximately)
+        f.keep_last = if f.keep_bit {
+            match rng.gen_range(0..8) {
+                0 => 33,
+                1 => 34,
+                2 => kl_fit,
+                3 => kl_fit + 1,
+                4 => kl_fit.saturating_sub(1),
+                5 => 4095,
+                _ => rng.gen_range(34..=kl_fit.max(34)),
+            }
+        } else if rng.gen_bool(0.9) {
+            0
+        } else {
+            rng.gen_range(1..4096)
+        };
+        let nn = ns as u32;
+        f.req = match rng.gen_range(0..12) {
+            0 => 0,
+            1 => 1,
+            2 => 2,
+            3 => (nn + 1).min(65535) as u16,
+            4 => (nn + 3).min(65535) as u16,
+            5 => 65535,
+            6 => rng.gen_range((nn + 2).min(65535)..=65535) as u16,
+            _ => (nn + 2).min(65535) as u16,
+        };
+        if ns >= 64 {
+            let s: i32 = f.wave[..64].iter().map(|&v| i32::from(v)).sum();
+            f.base = match rng.gen_range(0..10) {
+                0 => (s / 64) as i16, // truncating mean
+                1 => f.base.wrapping_add(1),
+                2 => f.base.wrapping_sub(1),
+                _ => f.base,
+            };
+        }
+        let mut b = f.pack();
+        let kind = if rng.gen_bool(0.3) {
+            mutate(&mut rng, &mut b)
+        } else {
+            "struct".to_string()
+        };
+        emit(run, "adc", kind, b);
+    }
+}
+
+fn emit_mut(run: &mut Runner, fam: &'static str, kind: String, bytes: Vec<u8>) {
+    if !run.wants() {
+        run.n += 1;
+        return;
+    }
+    let base = obj(vec![
+        ("fam", json!(fam)),
+        ("kind", json!(kind)),
+        ("mut", json!(1)),
+        ("bytes", jbytes(&bytes)),
+    ]);
+    run.case(base, || decode_by_fam(fam, &bytes));
+}
+
+pub fn pwb_devices() -> Vec<u32> {
+    let mut v = Vec::new();
+    for a in b'0'..=b'9' {
+        for b in b'0'..=b'9' {
+            let n = format!("{}{}", a as char, b as char);
+            if let Ok(id) = alpha_g_detector::padwing::BoardId::try_from(n.as_str()) {
+                v.push(id.device_id());
+            }
+        }
+    }
+    v
+}
+
+fn flip(b: &[u8], bits: &[usize]) -> Vec<u8> {
+    let mut m = b.to_vec();
+    for &p in bits {
+        m[p / 8] ^= 1 << (p % 8);
+    }
+    m
+}
+
+/// All single-bit flips, every burst of length 1..=32 at every offset (both
+/// ends flipped, random interior), sampled pairs/triples.
+fn chunk_mutants<R: Rng>(run: &mut Runner, rng: &mut R, base: &[u8], singles: bool, bursts: bool, pairs: usize) {
+    let nb = base.len() * 8;
+    if singles {
+        for p in 0..nb {
+            emit_mut(run, "chunk", "flip1".into(), flip(base, &[p]));
+        }
+    }
+    if bursts {
+        for len in 2..=32usize {
+            for s in 0..=(nb - len) {
+                let mut bits = vec![s, s + len - 1];
+                for j in 1..len - 1 {
+                    if rng.gen_bool(0.5) {
+                        bits.push(s + j);
+                    }
+                }
+                emit_mut(run, "chunk", format!("burst{len}"), flip(base, &bits));
+            }
+        }
+    }
+    for k in 0..pairs {
+        let a = rng.gen_range(0..nb);
+        // half of the pairs inside a 64-bit window, half anywhere (incl. across the two codewords)
+        let b = if k % 2 == 0 {
+            (a + rng.gen_range(1..64)).min(nb - 1)
+        } else {
+            rng.gen_range(0..nb)
+        };
+        if a != b {
+            emit_mut(run, "chunk", "flip2".into(), flip(base, &[a, b]));
+        }
+        let c = rng.gen_range(0..nb);
+        if a != b && c != a && c != b {
+            emit_mut(run, "chunk", "flip3".into(), flip(base, &[a, b, c]));
+        }
+    }
+}
+
+fn rand_chunk<R: Rng>(rng: &mut R, devs: &[u32], plen: usize) -> ChunkFields {
+    ChunkFields {
+        dev: *devs.choose(rng).unwrap(),
+        pseq: *[0u32, 1, u32::MAX, rng.gen()].choose(rng).unwrap(),
+        cseq: *[0u16, 1, u16::MAX, rng.gen()].choose(rng).unwrap(),
+        chip: rng.gen_range(0..4),
+        flags: rng.gen_range(0..2),
+        id: *[0u16, 1, u16::MAX, rng.gen()].choose(rng).unwrap(),
+        payload: (0..plen).map(|_| rng.gen()).collect(),
+    }
+}
+
+pub fn gen_chunk(run: &mut Runner, seed: u64, n: u64, thorough: bool) {
+    let mut rng = rng_from(seed, 3);
+    let devs = pwb_devices();
+    // every device x chip x flag
+    for &d in &devs {
+        for chip in 0..4 {
+            for flags in 0..2 {
+                let mut c = rand_chunk(&mut rng, &devs, 4);
+                c.dev = d;
+                c.chip = chip;
+                c.flags = flags;
+                emit(run, "chunk", "devchip".into(), c.pack());
+            }
+        }
+    }
+    // every payload length 1..=64 and a ladder up to 65535
+    let mut lens: Vec<usize> = (1..=64).collect();
+    lens.extend([100, 255, 256, 257, 1000, 1400, 4095, 4096, 65532, 65533, 65534, 65535]);
+    for &l in &lens {
+        if l > 5000 && !thorough && l != 65535 {
+            continue;
+        }
+        emit(run, "chunk", format!("plen{l}"), rand_chunk(&mut rng, &devs, l).pack());
+    }
+    // short / random / truncated inputs
+    for len in 0..=64usize {
+        let b: Vec<u8> = (0..len).map(|_| rng.gen()).collect();
+        emit(run, "chunk", format!("randlen{len}"), b);
+        let mut v = rand_chunk(&mut rng, &devs, 40).pack();
+        v.truncate(len);
+        emit(run, "chunk", format!("trunclen{len}"), v);
+    }
+    // mutant enumeration on accepted base chunks
+    let base_lens: Vec<usize> = if thorough {
+        let mut v: Vec<usize> = (1..=40).collect();
+        v.extend([56, 57, 63, 64, 100, 128]);
+        v
+    } else {
+        vec![1, 6, 17, 36]
+    };
+    for &l in &base_lens {
+        let base = rand_chunk(&mut rng, &devs, l).pack();
+        emit(run, "chunk", "base".into(), base.clone());
+        chunk_mutants(run, &mut rng, &base, true, l <= 40, 300);
+    }
+    if thorough {
+        // 1 KiB chunk: all 8k+ single flips; 65535-byte chunk: sampled flips and bursts
+        let base = rand_chunk(&mut rng, &devs, 1000).pack();
+        emit(run, "chunk", "base".into(), base.clone());
+        chunk_mutants(run, &mut rng, &base, true, false, 500);
+        let big = rand_chunk(&mut rng, &devs, 65535).pack();
+        emit(run, "chunk", "base".into(), big.clone());
+        let nb = big.len() * 8;
+        for k in 0..60 {
+            let a = rng.gen_range(0..nb);
+            match k % 3 {
+                0 => emit_mut(run, "chunk", "flip1".into(), flip(&big, &[a])),
+                1 => {
+                    let b = rng.gen_range(0..nb);
+                    if a != b {
+                        emit_mut(run, "chunk", "flip2".into(), flip(&big, &[a, b]))
+                    }
+                }
+                _ => {
+                    let len = rng.gen_range(2..=32).min(nb - a);
+                    if len >= 2 {
+                        emit_mut(run, "chunk", format!("burst{len}"), flip(&big, &[a, a + len - 1]))
+                    }
+                }
+            }
+        }
+    }
+    // structured near-valid chunks whose CRC words are valid
+    for _ in 0..n {
+        let plen = match rng.gen_range(0..10) {
+            0 => rng.gen_range(1..=4),
+            1..=6 => rng.gen_range(1..=64),
+            _ => rng.gen_range(64..=300),
+        };
+        let c = rand_chunk(&mut rng, &devs, plen);
+        let mut b = c.pack();
+        let kind = match rng.gen_range(0..12) {
+            0 | 1 => "valid".to_string(),
+            2 => {
+                // wrong declared length, CRCs refreshed
+                let cur = u16::from_le_bytes([b[14], b[15]]);
+                let d = cur.wrapping_add(*[1u16, 2, 3, 4, 5, 0xFFFF, 0xFFFE, 0xFFFD, 0xFFFC].choose(&mut rng).unwrap());
+                b[14..16].copy_from_slice(&d.to_le_bytes());
+                refresh_chunk_crcs(&mut b);
+                "declen".to_string()
+            }
+            3 => {
+                // non-zero padding with a valid payload CRC
+                let n = b.len();
+                if plen % 4 != 0 {
+                    b[n - 5] = rng.gen_range(1..=255);
+                    refresh_chunk_crcs(&mut b);
+                }
+                "nzpad".to_string()
+            }
+            4 => {
+                b[10] = *[4u8, 5, 128, 255].choose(&mut rng).unwrap();
+                refresh_chunk_crcs(&mut b);
+                "chip".to_string()
+            }
+            5 => {
+                b[11] = *[2u8, 3, 128, 255].choose(&mut rng).unwrap();
+                refresh_chunk_crcs(&mut b);
+                "flags".to_string()
+            }
+            6 => {
+                let k = rng.gen_range(0..4);
+                b[k] ^= 1 << rng.gen_range(0..8);
+                refresh_chunk_crcs(&mut b);
+                "dev".to_string()
+            }
+            7 => {
+                // append/remove whole words, CRCs refreshed
+                if rng.gen() {
+                    b.extend([0u8; 4]);
+                } else if b.len() > 28 {
+                    let n = b.len();
+                    b.truncate(n - 4);
+                }
+                refresh_chunk_crcs(&mut b);
+                "words".to_string()
+            }
+            _ => {
+                let k = mutate(&mut rng, &mut b);
+                if rng.gen_bool(0.3) {
+                    refresh_chunk_crcs(&mut b);
+                    format!("{k}+crc")
+                } else {
+                    k
+                }
+            }
+        };
+        emit(run, "chunk", kind, b);
+    }
+}
+
+pub fn pwb_macs() -> Vec<[u8; 6]> {
+    let mut v = Vec::new();
+    for a in b'0'..=b'9' {
+        for b in b'0'..=b'9' {
+            let n = format!("{}{}", a as char, b as char);
+            if let Ok(id) = alpha_g_detector::padwing::BoardId::try_from(n.as_str()) {
+                v.push(id.mac_address());
+            }
+        }
+    }
+    v
+}
+
+pub fn rand_pwb<R: Rng>(rng: &mut R, macs: &[[u8; 6]], nch: usize, req: u16) -> PwbFields {
+    let mut all: Vec<u16> = (1..=79).collect();
+    all.shuffle(rng);
+    let mut sent: Vec<u16> = all[..nch.min(79)].to_vec();
+    sent.sort();
+    let mut thr: Vec<u16> = sent.iter().copied().filter(|_| rng.gen_bool(0.5)).collect();
+    if rng.gen_bool(0.1) {
+        thr = (1..=79).filter(|_| rng.gen_bool(0.3)).collect();
+    }
+    let waves = sent
+        .iter()
+        .map(|_| {
+            (0..req)
+                .map(|_| match rng.gen_range(0..10) {
+                    0 => i16::MIN,
+                    1 => i16::MAX,
+                    2 => -2048,
+                    3 => 2047,
+                    _ => rng.gen_range(-2048..=2047),
+                })
+                .collect()
+        })
+        .collect();
+    PwbFields {
+        chip: rng.gen_range(0..4),
+        trig: *[0u8, 1, 3].choose(rng).unwrap(),
+        mac: *macs.choose(rng).unwrap(),
+        delay: rng.gen(),
+        ts: rng.gen::<u64>() & 0xFFFF_FFFF_FFFF,
+        cell: rng.gen_range(0..512),
+        req,
+        sent,
+        thr,
+        evt: rng.gen(),
+        fifo: rng.gen(),
+        wd: rng.gen(),
+        rd: rng.gen(),
+        waves,
+    }
+}
+
+pub fn gen_pwb(run: &mut Runner, seed: u64, n: u64, thorough: bool) {
+    let mut rng = rng_from(seed, 5);
+    let macs = pwb_macs();
+    // every value of the version / chip / compression / trigger bytes
+    for pos in 0..4usize {
+        for v in 0..=255u8 {
+            let mut b = rand_pwb(&mut rng, &macs, 2, 3).pack();
+            b[pos] = v;
+            emit(run, "pwb", format!("hdrbyte{pos}"), b);
+        }
+    }
+    // every MAC
+    for m in &macs {
+        let mut f = rand_pwb(&mut rng, &macs, 1, 1);
+        f.mac = *m;
+        emit(run, "pwb", "mac".into(), f.pack());
+    }
+    for len in 0..=70usize {
+        let b: Vec<u8> = (0..len).map(|_| rng.gen()).collect();
+        emit(run, "pwb", format!("randlen{len}"), b);
+        let mut v = rand_pwb(&mut rng, &macs, 1, 4).pack();
+        v.truncate(len);
+        emit(run, "pwb", format!("trunclen{len}"), v);
+    }
+    // large packets
+    let big = if thorough { 12 } else { 3 };
+    for k in 0..big {
+        let (nch, req) = match k % 3 {
+            0 => (79, 511),
+            1 => (79, 510),
+            _ => (rng.gen_range(40..79), rng.gen_range(400..512)),
+        };
+        emit(run, "pwb", "big".into(), rand_pwb(&mut rng, &macs, nch, req).pack());
+    }
+    for _ in 0..n {
+        let nch = match rng.gen_range(0..10) {
+            0 => 0,
+            1..=6 => rng.gen_range(1..=3),
+            7 | 8 => rng.gen_range(1..=12),
+            _ => rng.gen_range(1..=79),
+        };
+        let req: u16 = match rng.gen_range(0..10) {
+            0 => 0,
+            1 => 1,
+            2 => 2,
+            3..=7 => rng.gen_range(0..=24),
+            _ => {
+                if nch <= 3 {
+                    *[510u16, 511, 255, 256].choose(&mut rng).unwrap()
+                } else {
+                    rng.gen_range(0..=40)
+                }
+            }
+        };
+        let f = rand_pwb(&mut rng, &macs, nch, req);
+        let mut b = f.pack();
+        let bpc = if req % 2 == 0 { 4 + 2 * req as usize } else { 6 + 2 * req as usize };
+        let kind = match rng.gen_range(0..14) {
+            0..=3 => "valid".to_string(),
+            4 if nch > 0 => {
+                // wrong channel index in one block
+                let k = rng.gen_range(0..nch);
+                let o = 52 + bpc * k;
+                let v: u16 = *[0u16, 1, 80, 79, f.sent[k].wrapping_add(1), f.sent[k].wrapping_sub(1)].choose(&mut rng).unwrap();
+                b[o..o + 2].copy_from_slice(&v.to_le_bytes());
+                "blockidx".to_string()
+            }
+            5 if nch > 0 => {
+                let k = rng.gen_range(0..nch);
+                let o = 52 + bpc * k + 2;
+                let v: u16 = *[req.wrapping_add(1), req.wrapping_sub(1), 0, 512].choose(&mut rng).unwrap();
+                b[o..o + 2].copy_from_slice(&v.to_le_bytes());
+                "blockcnt".to_string()
+            }
+            6 if nch > 0 && req % 2 == 1 => {
+                let k = rng.gen_range(0..nch);
+                let o = 52 + bpc * k + 4 + 2 * req as usize;
+                b[o + rng.gen_range(0..2)] = rng.gen_range(1..=255);
+                "blockpad".to_string()
+            }
+            7 => {
+                let n = b.len();
+                b[n - 1 - rng.gen_range(0..4)] ^= 1 << rng.gen_range(0..8);
+                "marker".to_string()
+            }
+            8 => {
+                // set or clear one mask bit without touching the blocks
+                let bit = rng.gen_range(0..80);
+                let base = if rng.gen() { 24 } else { 34 };
+                b[base + bit / 8] ^= 1 << (bit % 8);
+                format!("maskbit{}", if base == 24 { "sent" } else { "thr" })
+            }
+            9 => {
+                let v: u16 = *[511u16, 512, 513, 1023, 65535].choose(&mut rng).unwrap();
+                let o = if rng.gen() { 20 } else { 22 };
+                b[o..o + 2].copy_from_slice(&v.to_le_bytes());
+                "limits".to_string()
+            }
+            _ => mutate(&mut rng, &mut b),
+        };
+        emit(run, "pwb", kind, b);
+    }
+}
